@@ -36,7 +36,8 @@ const c0607Watchdog = 10 * time.Second
 //	walkfail: 0 = none, j+1 = the walk fails before reporting entry j (j = #entries: after the last)
 //
 // output: (trace hang misuse)   hang: 0 returned, 1 returned only after tear-down, 2 never returned;
-//   misuse = overlapping stream calls + stream calls attempted after Send had returned
+//
+//	misuse = overlapping stream calls + stream calls attempted after Send had returned
 func run0601(in Sx) (out Sx) {
 	defer func() {
 		if r := recover(); r != nil {
@@ -165,10 +166,11 @@ func diskFilesSx(dir string) Sx {
 //	announced one (the diff does not report them).
 //
 // output: (trace hang (taken ((path content) ...)) (taken ((path content) ...)) late)
-//   late = stream calls the receiver still attempted after Receive had returned
 //
-//	first listing: regular files of the destination at the moment the reference sender
-//	received FIN (taken = 0 when it never did); second: after Receive returned.
+//	  late = stream calls the receiver still attempted after Receive had returned
+//
+//		first listing: regular files of the destination at the moment the reference sender
+//		received FIN (taken = 0 when it never did); second: after Receive returned.
 func run0701(in Sx) (out Sx) {
 	defer func() {
 		if r := recover(); r != nil {
@@ -362,7 +364,11 @@ func genC06View(r *Rng) ([]*MNode, string) {
 }
 
 func genC06(g *Gen) {
-	n := g.Vol(300, 6000)
+	for _, in := range directedC06() {
+		g.Emit(0x0601, in, true, "directed")
+	}
+	n := g.Vol(500, 6000)
+	misuse, succeeded := 0, 0
 	for i := 0; i < n; i++ {
 		r := g.Rng
 		view, cls := genC06View(r)
@@ -509,8 +515,19 @@ func genC06(g *Gen) {
 			distinct[op.ID] = true
 		}
 		in := L(ViewSx(view), L(openfail...), L(L(opsSx...), NI(ending)), NI(capacity), NI(chunk), NI(walkfail))
-		g.Emit(0x0601, in, len(distinct) >= 2 || bad != "", cls)
+		out := g.Emit(0x0601, in, len(distinct) >= 2 || bad != "", cls)
+		if len(out.L) == 3 && out.L[2].Kind == 'n' && out.L[2].Int() > 0 {
+			misuse++
+		}
+		if len(out.L) == 3 && len(out.L[0].L) > 0 {
+			last := out.L[0].L[len(out.L[0].L)-1]
+			if len(last.L) == 2 && last.L[0].Int() == 5 && last.L[1].IsTrue() {
+				succeeded++
+			}
+		}
 	}
+	g.Note("runs_returning_success", succeeded)
+	g.Note("runs_with_overlapping_or_late_stream_calls", misuse)
 }
 
 // prior destination derived from the view: each node absent / identical / modified; a few
@@ -568,7 +585,11 @@ func derivePrior(r *Rng, view []*MNode) ([]*MNode, []string) {
 }
 
 func genC07(g *Gen) {
-	n := g.Vol(300, 6000)
+	for _, in := range directedC07() {
+		g.Emit(0x0701, in, true, "directed")
+	}
+	n := g.Vol(500, 6000)
+	late, succeeded := 0, 0
 	nHuge := g.Vol(2, 12)
 	for i := 0; i < n; i++ {
 		r := g.Rng
@@ -638,6 +659,110 @@ func genC07(g *Gen) {
 		in := L(ViewSx(view), ViewSx(prior), L(us...), L(Bool(merge), NI(differ)),
 			L(NI(sc.ChunkMode), NI(sc.Chunk), NI(sc.StatWeight), NI(sc.Pick), NI(sc.Ending), NI(sc.CloseAfter), N(sc.Seed)),
 			NI(capacity), Bool(r.Chance(30)))
-		g.Emit(0x0701, in, nreg >= 2, cls)
+		out := g.Emit(0x0701, in, nreg >= 2, cls)
+		if len(out.L) == 5 && out.L[4].Kind == 'n' && out.L[4].Int() > 0 {
+			late++
+		}
+		if len(out.L) == 5 && len(out.L[0].L) > 0 {
+			last := out.L[0].L[len(out.L[0].L)-1]
+			if len(last.L) == 2 && last.L[0].Int() == 5 && last.L[1].IsTrue() {
+				succeeded++
+			}
+		}
+	}
+	g.Note("runs_returning_success", succeeded)
+	g.Note("runs_where_receive_used_the_stream_after_returning", late)
+}
+
+// ---------------------------------------------------------------- directed cases (also kept in corpus/)
+
+func dirNode(name string, kids ...*MNode) *MNode {
+	return &MNode{Name: name, Stat: &types.Stat{Mode: uint32(os.ModeDir | 0755), ModTime: 1600000000e9}, Kids: kids}
+}
+
+func fileNode(name string, content string) *MNode {
+	return &MNode{Name: name, Stat: &types.Stat{Mode: 0644, Size: int64(len(content)), ModTime: 1600000001e9}, Content: []byte(content)}
+}
+
+func linkNode(name, target, content string) *MNode {
+	n := fileNode(name, content)
+	n.Stat.Linkname = target
+	return n
+}
+
+func symNode(name, target string) *MNode {
+	return &MNode{Name: name, Stat: &types.Stat{Mode: uint32(os.ModeSymlink | 0777), Linkname: target, Size: int64(len(target)), ModTime: 1600000002e9}}
+}
+
+// d/ d/a("abc") d/b("") d/h(link d/a) l(symlink) z("zz"): ids 0..5, files 1 2 3 5
+func directedView() []*MNode {
+	return []*MNode{dirNode("d", fileNode("a", "abc"), fileNode("b", ""), linkNode("h", "d/a", "abc")), symNode("l", "d"), fileNode("z", "zz")}
+}
+
+func c06Input(view []*MNode, openfail []string, ops [][2]int, ending, capacity, chunk, walkfail int) Sx {
+	of := make([]Sx, len(openfail))
+	for i, p := range openfail {
+		of[i] = S(p)
+	}
+	os_ := make([]Sx, len(ops))
+	for i, op := range ops {
+		os_[i] = L(NI(op[0]), N(uint64(uint32(op[1]))))
+	}
+	return L(ViewSx(view), L(of...), L(L(os_...), NI(ending)), NI(capacity), NI(chunk), NI(walkfail))
+}
+
+func directedC06() []Sx {
+	v := directedView
+	all := [][2]int{{2, 1}, {3, 2}, {4, 3}, {6, 5}}
+	noFirst := []*MNode{dirNode("d", fileNode("b", ""), linkNode("h", "d/a", "abc"), linkNode("i", "d/a", "abc")), fileNode("z", "zz")}
+	return []Sx{
+		c06Input(v(), nil, all, 0, 0, 0, 0),                                          // every file as its STAT arrives, unbuffered stream
+		c06Input(v(), nil, [][2]int{{7, 5}, {7, 3}, {7, 1}, {7, 2}}, 0, 8, 1, 0),     // after the end marker, reverse order, 1-byte reads
+		c06Input(v(), nil, [][2]int{{2, 1}, {2, 1}}, 0, 1, 0, 0),                     // duplicate id
+		c06Input(v(), nil, [][2]int{{2, 1}, {7, 6}}, 0, 1, 0, 0),                     // id = number of entries: never announced
+		c06Input(v(), nil, [][2]int{{7, -1}}, 0, 1, 0, 0),                            // id 0xffffffff
+		c06Input(v(), nil, [][2]int{{1, 0}}, 0, 1, 0, 0),                             // directory id
+		c06Input(v(), nil, [][2]int{{5, 4}}, 0, 1, 0, 0),                             // symlink id
+		c06Input(v(), nil, [][2]int{{0, 5}}, 0, 0, 0, 0),                             // guessed long before its STAT
+		c06Input(v(), []string{"d/a"}, all, 0, 2, 0, 0),                              // K3: Open fails, empty DATA, success
+		c06Input(noFirst, nil, [][2]int{{2, 1}, {3, 2}, {4, 3}, {5, 4}}, 0, 0, 2, 0), // hard-link reset: first member filtered out
+		c06Input(v(), nil, all, 0, 0, 0, 3),                                          // walk fails before entry 2: ERR packet
+		c06Input(v(), nil, all, 1, 0, 0, 0),                                          // receiver closes without FIN
+		c06Input(v(), nil, all, 2, 0, 0, 0),                                          // receiver sends ERR
+		c06Input(v(), nil, all, 3, 0, 0, 0),                                          // FIN before the data has arrived
+		c06Input(v(), nil, all, 4, 0, 0, 0),                                          // receiver closes right after its requests
+		c06Input(nil, nil, nil, 0, 0, 0, 0),                                          // empty view
+	}
+}
+
+func c07Input(view, prior []*MNode, unchanged []string, merge bool, differ int, sc refSendScript, capacity int, progress bool) Sx {
+	us := make([]Sx, len(unchanged))
+	for k, p := range unchanged {
+		us[k] = S(p)
+	}
+	return L(ViewSx(view), ViewSx(prior), L(us...), L(Bool(merge), NI(differ)),
+		L(NI(sc.ChunkMode), NI(sc.Chunk), NI(sc.StatWeight), NI(sc.Pick), NI(sc.Ending), NI(sc.CloseAfter), N(sc.Seed)),
+		NI(capacity), Bool(progress))
+}
+
+func directedC07() []Sx {
+	v := directedView
+	prior := []*MNode{dirNode("d", fileNode("a", "abc"), fileNode("b", "x")), fileNode("old", "gone")}
+	many := []*MNode{}
+	for i := 0; i < 12; i++ {
+		many = append(many, fileNode(fmt.Sprintf("f%02d", i), fmt.Sprintf("content-%d", i)))
+	}
+	return []Sx{
+		c07Input(v(), nil, nil, false, 0, refSendScript{Chunk: 1, StatWeight: 100, Seed: 1}, 0, false),       // all STATs first, 1-byte chunks
+		c07Input(v(), nil, nil, false, 0, refSendScript{Chunk: 2, StatWeight: 0, Pick: 2, Seed: 2}, 0, true), // DATA preferred over STAT, newest id first
+		c07Input(v(), nil, nil, false, 0, refSendScript{ChunkMode: 1, Chunk: 3, StatWeight: 50, Pick: 0, Seed: 3}, 64, false),
+		c07Input(v(), prior, []string{"d/a"}, false, 0, refSendScript{Chunk: 100, StatWeight: 50, Pick: 3, Seed: 4}, 1, false),       // d/a unchanged: not requested
+		c07Input(v(), prior, []string{"d/a"}, true, 0, refSendScript{Chunk: 100, StatWeight: 50, Pick: 1, Seed: 5}, 1, false),        // Merge: everything requested
+		c07Input(v(), prior, []string{"d/a"}, false, 1, refSendScript{Chunk: 100, StatWeight: 50, Pick: 1, Seed: 6}, 1, false),       // DiffNone: everything requested
+		c07Input(v(), nil, nil, false, 0, refSendScript{Chunk: 100, StatWeight: 100, Ending: 2, CloseAfter: 3, Seed: 7}, 0, false),   // EOF in the middle of the STATs
+		c07Input(v(), nil, nil, false, 0, refSendScript{Chunk: 100, StatWeight: 100, Ending: 2, CloseAfter: 7, Seed: 8}, 0, false),   // EOF right after the end marker
+		c07Input(v(), nil, nil, false, 0, refSendScript{Chunk: 100, StatWeight: 50, Ending: 1, Seed: 9}, 0, false),                   // FIN not echoed: EOF instead
+		c07Input(many, nil, nil, false, 0, refSendScript{Chunk: 100, StatWeight: 100, Ending: 3, CloseAfter: 6, Seed: 10}, 2, false), // ERR while requests are outstanding
+		c07Input(nil, nil, nil, false, 0, refSendScript{Chunk: 1, StatWeight: 50, Seed: 11}, 0, false),                               // empty transfer
 	}
 }
